@@ -2313,6 +2313,10 @@ class TaskPool:
             return None
 
         self.db_add_new_flow_rows(itask)
+        if itask.state.outputs.get_completed_outputs():
+            # The new DB row starts with no outputs: record those that
+            # were loaded from the task's history.
+            self.workflow_db_mgr.put_update_task_outputs(itask)
         self._set_prereqs_itask(itask, prereqs, xtrigs, set_all)
         self.add_to_pool(itask)
         return itask
